@@ -109,6 +109,7 @@ type c20World struct {
 	waitReady chan bool
 	waitRes   chan reloadReadyWaitResult
 	waitGid   atomic.Uint64
+	wAbort    bool // abort decision of the request the worker received last
 	regions   *c20Regions
 	r         *VRand
 	st        *VStats
@@ -164,6 +165,7 @@ func c20NewWorld(t *testing.T, dir string, regions *c20Regions, r *VRand, st *VS
 	w.M = &c20Thread{name: "M"}
 	w.W = &c20Thread{name: "W"}
 	outbounddialer.VerifC20ResetSuppression()
+	_ = os.Remove(AbortFile)
 	// start-up: the ready goroutine of Run writes Done ""
 	if err := writeSignalProgressFile(w.progPath, consts.ReloadDone, ""); err != nil {
 		t.Fatal(err)
@@ -282,7 +284,10 @@ func (w *c20World) stepThread(th *c20Thread) (spawnedRunning bool) {
 		th.pendingSig = ""
 		th.sigWork = true
 		w.startCall(th, func() {
-			w.m.queueReloadRequest(w.log, reloadRequest{isSuspend: k == "s", requestedAt: time.Now()})
+			// the dispatch of the main select (extracted: `takeabort queue:…`): the request takes
+			// the abort marker with it
+			w.m.queueReloadRequest(w.log, reloadRequest{isSuspend: k == "s", requestedAt: time.Now(),
+				abortConnections: takeAbortMarker()})
 		})
 		w.await(th, nil)
 	} else if len(th.calls) > 0 {
@@ -416,11 +421,12 @@ func (w *c20World) state() string {
 		return "desync:" + w.desync
 	}
 	b, e, g, s := w.gCounts()
-	return fmt.Sprintf("p=%s a=%s r=%s s=%d f=%s q=%d e=%s st=%s rd=%s n=%d x=%s M=%s W=%s g=%d,0,%d,%d,%d",
+	_, aerr := os.Stat(AbortFile)
+	return fmt.Sprintf("p=%s a=%s r=%s s=%d f=%s q=%d e=%s st=%s rd=%s n=%d x=%s ab=%s wa=%s M=%s W=%s g=%d,0,%d,%d,%d",
 		c20B(w.m.reloadPending.Load()), c20B(w.m.reloadActive.Load()), c20B(w.m.reloading.Load()),
 		outbounddialer.VerifC20Suppression(), c20ProgClass(w.progPath), len(w.m.reloadReqs),
 		c20B(w.m.reloadError() != nil), c20B(w.m.currentPendingStagedHandoff() != nil), w.retState(),
-		len(w.m.runStateChanges), c20B(w.exited), w.pos(w.M), w.pos(w.W), b, e, g, s)
+		len(w.m.runStateChanges), c20B(w.exited), c20B(aerr == nil), c20B(w.wAbort), w.pos(w.M), w.pos(w.W), b, e, g, s)
 }
 
 // ---------------------------------------------------------------- path statements → real calls
@@ -597,6 +603,8 @@ func (w *c20World) callsFor(th *c20Thread, toks []string, term string) []c20Call
 			add(t, func() { m.finishReloadFailure() })
 		case t == "fatal":
 			add(t, func() { w.exited = true })
+		case strings.HasPrefix(t, "lit{"):
+			// a goroutine is spawned; what it does (a later notification) is the `spur` action
 		case strings.Contains(t, "=") && !strings.HasPrefix(t, "prog=") && !strings.HasPrefix(t, "?"):
 			// guard: evaluated by the real code, no statement of its own
 		default:
@@ -710,6 +718,7 @@ func (w *c20World) enabled() (internal []string, external []string) {
 	if w.exited {
 		return nil, nil
 	}
+	external = append(external, "mark", "spur")
 	mIdle := !w.busy(w.M)
 	if mIdle {
 		external = append(external, "sig r", "sig s", "term")
@@ -754,6 +763,16 @@ func (w *c20World) do(a c20Action) string {
 		w.swallow(a.name[8:])
 	case "term":
 		w.exited = true
+	case "mark":
+		// what `dae reload -a` / `dae suspend -a` do just before they signal
+		if f, err := os.Create(AbortFile); err == nil {
+			_ = f.Close()
+		} else {
+			w.fail("cannot create the abort marker: " + err.Error())
+		}
+	case "spur":
+		// a Serve goroutine ends (the `lit{notify}` of the handler paths / the start-up goroutine)
+		notifyRunStateChange(w.m.runStateChanges)
 	case "cli":
 		// the real client helper: write ReloadSend, then signal (the signal itself is the next op)
 		if err := writeReloadSendAndSignal(w.progPath, 1, func(int, syscall.Signal) error { return nil }); err != nil {
@@ -779,7 +798,8 @@ func (w *c20World) do(a c20Action) string {
 		op = "wake " + c20PathOp(a.path)
 	case "wstart":
 		select {
-		case <-w.m.reloadReqs:
+		case req := <-w.m.reloadReqs:
+			w.wAbort = req.abortConnections
 		default:
 			w.fail("wstart without request")
 		}
@@ -968,6 +988,7 @@ func (s *c20Seq) quiet() {
 var c20Desyncs int
 
 func c20RunSeq(t *testing.T, out *VStream, dir string, regions *c20Regions, r *VRand, st *VStats, body func(s *c20Seq)) int {
+	defer os.Remove(AbortFile)
 	if c20Desyncs >= 2 {
 		// the real goroutines do not follow the model's sections any more; two replays are enough
 		st.Inc("sequences_skipped_after_desync")
@@ -1129,6 +1150,10 @@ func c20Random(s *c20Seq, n int) {
 				}
 			case "cli":
 				if w.r.Intn(3) == 0 {
+					choices = append(choices, e)
+				}
+			case "mark", "spur":
+				if w.r.Intn(4) == 0 {
 					choices = append(choices, e)
 				}
 			default:
